@@ -189,7 +189,8 @@ pub fn run(ctx: &Ctx) -> i32 {
                         let keys: Vec<String> = { let mut k: Vec<String> = labelmap.keys().cloned().collect(); k.sort(); k };
                         let fns: Vec<&String> = keys.iter().filter(|k| k.starts_with("fn_")).collect();
                         let pick = if !fns.is_empty() && rng.chance(0.7) { fns[rng.below(fns.len())].clone() } else { keys[rng.below(keys.len())].clone() };
-                        let odd = *rng.pick(&["__return__", "__return__", "return", "_start", "L0", "ret_", "a0_"]);
+                        // (also names that are register names in another case: registers are case-sensitive, `T0` is a label)
+                        let odd = *rng.pick(&["__return__", "__return__", "return", "_start", "L0", "ret_", "a0_", "T0", "Sp", "A7", "RA", "X5", "S11", "Fp", "Gp", "T6"]);
                         // (injective: not a name the program already uses, defined or not)
                         if !c0.printed.text.contains(odd) {
                             labelmap.insert(pick, odd.to_string());
